@@ -65,6 +65,13 @@ def gen_ops(rng, n):
     for _ in range(n):
         slot = rng.choice(hot) if rng.random() < 0.7 else gen_slot(rng)
         c = rng.randrange(10)
+        again = [o for o in ops if o[0] == 'K']
+        if again and rng.random() < 0.15:
+            # the same X or Y value once more (after whatever happened in between: a directly set normal key, a deferred change of
+            # the other half): the normal key must be regenerated all the same
+            o = rng.choice(again)
+            ops.append(['K', o[1], o[2], o[3], 1])
+            continue
         if c < 4:
             ops.append(['K', rng.randrange(2), slot, gen_key(rng), int(rng.random() < 0.6)])
         elif c < 6:
